@@ -462,6 +462,10 @@ for _g in PLANS['C13']['groups']:
 BINSEM = dict(params=dict(binsem=1))
 PLANS['C01']['groups'].append(G('mu_mix', 'c-binsem-plain', 'A', 2, 600, thorough=30000, owners=mu_mix_owners, **BINSEM))
 PLANS['C02']['groups'].append(G('mu_mix', 'c-binsem-plain', 'A', 2, 600, thorough=30000, owners=mu_mix_owners, **BINSEM))
+# thread churn: sections run by short-lived pthreads (waiter structs returned to the pool by the thread-exit destructor)
+PLANS['C02']['groups'].append(G('mu_mix', 'c-plain', 'B', 4, 1500, owners=mu_mix_owners, params=dict(churn=1)))
+PLANS['C02']['groups'].append(G('mu_mix', 'c-plain', 'A', 2, 600, thorough=20000, owners=mu_mix_owners, params=dict(churn=1)))
+PLANS['C13']['groups'].append(G('mu_mix', 'c-asan', 'B', 2, 800, owners=c13_owners, params=dict(churn=1)))
 PLANS['C02']['groups'].append(G('cond_rounds', 'c-binsem-plain', 'A', 1, 600, thorough=30000, owners=mu_mix_owners, **BINSEM))
 for _g in PLANS['C04']['groups']:
     if _g['variant'] == 'c-binsem-plain':
